@@ -496,7 +496,7 @@ func describe(form string, c any, v val) (leadingSpace, keyInQuery bool) {
 	if nt {
 		b, _ := json.Marshal(c)
 		vh.NonTrivial(form + string(b))
-		vh.Sample(form+"-roundtrip-"+v.kind(), c)
+		vh.Sample(form+"-roundtrip", c)
 	}
 	return
 }
